@@ -96,7 +96,7 @@ KX, KY = {float(a1)!r} * x + {float(b1)!r}, {float(a2)!r} * y + {float(b2)!r}
 a, b = x * U, y * V
 obs = dict(eq=(a == b), lt=(a < b), gt=(a > b))
 print(a, b, 'kelvin values', KX, KY, obs)
-if abs(KX - KY) <= 1e-7 * (abs(KX) + abs(KY) + 1):
+if abs(KX - KY) <= 4 * {float(REL)!r} * (abs(KX) + abs(KY) + 1):
     print('tie zone'); sys.exit(0)
 want = dict(eq=False, lt=KX < KY, gt=KX > KY)
 if any(bool(obs[k]) != want[k] for k in obs):
@@ -217,7 +217,10 @@ def compare(acc: work.Acc, U: Any, V: Any, sc: str, dc: str, ms: Tuple, vs: Frac
         elif r == "unknown":
             acc.ob("unknown", f"{label}:compare#p{i}", key)
         else:
-            sm = acc.P.shaped_model([p.cond, z3.Not(goal)], [X, Y])
+            # prefer a model far from the tie: it replays the same way in double arithmetic
+            far = z3.Or(KX < KY - 100000 * margin, KX > KY + 100000 * margin)
+            sm = acc.P.shaped_model([p.cond, z3.Not(goal), far], [X, Y]) or \
+                acc.P.shaped_model([p.cond, z3.Not(goal)], [X, Y])
             if sm is None:
                 acc.ob("unknown", f"{label}:compare#p{i}(real-model-only)", key)
                 continue
